@@ -10,7 +10,7 @@ out_dir = sys.argv[1] if len(sys.argv) > 1 else os.path.join(HERE, "seeded", "_r
 only = sys.argv[2:]
 os.makedirs(out_dir, exist_ok=True)
 claimed = set(c["property_id"] for c in json.load(open(os.path.join(HERE, "MANIFEST.json")))["checks"])
-RELATED = {"C06": ["C02", "C05"], "C10": ["C02"], "C02": ["C10", "C04"], "C03": ["C05", "C01"], "C16": ["C10"], "C09": ["C04"], "C04": ["C09", "C17"], "C05": ["C01"], "C13": [], "C07": [], "C14": [], "C20": []}
+RELATED = {"C01": ["C02"], "C06": ["C02", "C05"], "C10": ["C02"], "C02": ["C10", "C04"], "C03": ["C05", "C01"], "C16": ["C10"], "C09": ["C04"], "C04": ["C09", "C17"], "C05": ["C01"], "C13": [], "C07": [], "C14": [], "C20": []}
 for d in sorted(glob.glob(os.path.join(HERE, "seeded", "C*-m*"))):
     sid = os.path.basename(d)
     if only and sid not in only:
